@@ -287,6 +287,20 @@ def specialise(ctx, f, keep=1):
                     ok = False
                     break
                 e = defs[0].value
+                # the object that was built is what is passed only if the caller does not touch it in between (or during the loop
+                # the call sits in): any store into it, mutator call on it or re-binding makes it something else
+                from .pointsto import MUTATORS as _MUT
+                touched = False
+                for x in walk_no_nested_defs(g.node):
+                    if isinstance(x, ast.Subscript) and isinstance(x.ctx, (ast.Store, ast.Del)) and isinstance(x.value, ast.Name) and x.value.id == a.id:
+                        touched = True
+                    if isinstance(x, ast.Call) and isinstance(x.func, ast.Attribute) and isinstance(x.func.value, ast.Name) and x.func.value.id == a.id and x.func.attr in _MUT:
+                        touched = True
+                    if isinstance(x, ast.AugAssign) and isinstance(x.target, ast.Name) and x.target.id == a.id:
+                        touched = True
+                if touched:
+                    ok = False
+                    break
             e = _inline_pure_helper(ctx, g, e)
             if not _pure(e, ctx, receiver):
                 ok = False
@@ -300,7 +314,15 @@ def specialise(ctx, f, keep=1):
                 if aq is not None and not isinstance(aq, ast.Constant):
                     table[ast.dump(aq)] = ast.Name(id=q, ctx=ast.Load())
             e2 = _Replace(table).visit(copy.deepcopy(e))
-            free = {x.id for x in ast.walk(e2) if isinstance(x, ast.Name)} - _bound_names(e2)
+            if f.cls is not None and g.cls is not None and g.cls.name not in ctx.prog.mro(f.cls.name):
+                # attributes of the CALLER's object (the solver's precision, ...) are values fixed outside the callee: opaque names
+                class _CallerSelf(ast.NodeTransformer):
+                    def visit_Attribute(self, node):
+                        if isinstance(node.value, ast.Name) and node.value.id == "self" and isinstance(node.ctx, ast.Load):
+                            return ast.copy_location(ast.Name(id="__caller_%s__" % node.attr, ctx=ast.Load()), node)
+                        return self.generic_visit(node)
+                e2 = _CallerSelf().visit(e2)
+            free = {x.id for x in ast.walk(e2) if isinstance(x, ast.Name) and not x.id.startswith("__caller_")} - _bound_names(e2)
             allowed = set(ps) | set(g.mod.consts) | _PURE_CALLS | {"True", "False", "None"} | ({receiver} if receiver else set())
             if not free <= allowed or "self" in free:
                 ok = False
